@@ -138,21 +138,34 @@ FORMS = ("seq", "source", "seq_calter", "source_calter", "seq_malter", "source_m
          "split", "seq_nested_calter", "seq_nested_malter")
 
 
+# file names of the two caches of a pipeline (relative to the scratch directory):
+# 0 a name with dots and a non-ASCII letter / a name in a directory that does not exist yet;
+# 1 the same stem, different extensions;  2 no extension, and the first name is a prefix of the second;
+# 3 both in one new directory, no extension / prefix + ".v2"
+NAME_PAIRS = ((u"c1.v1.ü.pkl", os.path.join("sub", "c2.pkl")),
+              ("events.raw", "events.sel"),
+              ("events", "events.pkl"),
+              (os.path.join("store", "cache"), os.path.join("store", "cache.v2")))
+
+
 class Pipeline(object):
     """The real objects of one history (rebuilt by the `new` command; the files stay)."""
 
-    def __init__(self, directory, nc, shape, style):
+    def __init__(self, directory, nc, shape, style, names=0, exc="exc"):
         self.dir, self.nc, self.shape, self.style = directory, nc, shape, style
+        self.exc = exc
         self.src = Src(style)
+        self.src.exc = exc
         self.taps = {}
         self.caches = []
         self.cont = None      # the container object of the last start (run again by `restart`)
-        # a name with dots and a non-ASCII letter; a name in a directory that does not exist yet
-        self.names = [u"c1.v1.ü.pkl", os.path.join("sub", "c2.pkl")][:nc]
+        self.names = list(NAME_PAIRS[names % len(NAME_PAIRS)][:nc])
 
     def build(self, rc, protocol=2):
         import lena.flow
         self.taps = {k: Tap(k) for k in ("pre", "mid", "post") if self.shape.get(k)}
+        for t in self.taps.values():
+            t.exc = self.exc
         self.cont = None
         # both documented values of *method* (the same pickle module in Python 3)
         method = "pickle" if protocol in (0, 4) else "cPickle"
@@ -232,7 +245,7 @@ class Pipeline(object):
         return cont
 
 
-def run_history(workdir, scen, cmds, style="int", protocol=2, drain=True, probe=1, keep=False):
+def run_history(workdir, scen, cmds, style="int", protocol=2, drain=True, probe=1, keep=False, names=0, exc="exc"):
     """Execute the commands of one history; return the list of recorded events.
 
     cmds: dicts with cmd in new / drop / data / start / restart / next / raise / stop (as exported by Cache.tla);
@@ -245,7 +258,7 @@ def run_history(workdir, scen, cmds, style="int", protocol=2, drain=True, probe=
     n = max(lens)
     d = workdir
     _clean(d)
-    pl = Pipeline(d, nc, shape, style)
+    pl = Pipeline(d, nc, shape, style, names=names, exc=exc)
     state = {"ver": 1, "gen": None, "rc": [False] * nc, "built": False, "npos": 0}
     events = []
     decode = {}
@@ -283,12 +296,15 @@ def run_history(workdir, scen, cmds, style="int", protocol=2, drain=True, probe=
             state["gen"] = None
             log("next", "", "stop")
             return "stop"
-        except Injected as exc:
+        except BaseException as exc:   # noqa
             state["gen"] = None
-            log("next", str(exc), "inj")
-            return "inj"
-        except Exception as exc:   # noqa
-            state["gen"] = None
+            site = getattr(exc, "lenaverif_site", None)
+            if site is not None:
+                # raised by a harness element (an Exception, a plain BaseException, KeyboardInterrupt or SystemExit)
+                log("next", site, "inj")
+                return "inj"
+            if not isinstance(exc, Exception):
+                raise
             log("next", type(exc).__name__, "exc")
             return "exc"
         log("next", "", "val", v=identify(x))
@@ -510,10 +526,14 @@ def _shard_job(args):
     gc.collect()
     gc.freeze()
     recs = []
-    for gi, scen, cmds, style, protocol in items:
-        ev = run_history(os.path.join(d, "fs"), scen, cmds, style=style, protocol=protocol)
+    for it in items:
+        gi, scen, cmds, style, protocol = it[:5]
+        opts = it[5] if len(it) > 5 else {}
+        names, exc = opts.get("names", 0), opts.get("exc", "exc")
+        ev = run_history(os.path.join(d, "fs"), scen, cmds, style=style, protocol=protocol, names=names, exc=exc)
         recs.append({"lens": scen["lens"], "n": max(scen["lens"]), "nc": scen["nc"], "shape": scen["shape"], "ev": ev,
-                     "style": style, "protocol": protocol, "cmds": cmds, "gi": gi})
+                     "style": style, "protocol": protocol, "cmds": cmds, "gi": gi,
+                     "names": list(NAME_PAIRS[names % len(NAME_PAIRS)][:scen["nc"]]), "exc": exc})
     # at most MAX_JVMS TLC processes at a time (memory), however many replay workers there are
     if _TLC_SEM is not None:
         _TLC_SEM.acquire()
@@ -653,7 +673,7 @@ def check_histories(ctx, items, what):
         ctx.violation("Cache:%s" % key, {
             "found_by": what,
             "scenario": {"lens": rec["lens"], "nc": rec["nc"], "shape": rec["shape"], "style": rec["style"],
-                         "protocol": rec["protocol"]},
+                         "protocol": rec["protocol"], "cache_names": rec["names"], "injected_exception": rec["exc"]},
             "commands": rec["cmds"],
             "accepted_events": rec["ev"][:max(acc, 0)],
             "first_rejected_event": rec["ev"][acc] if 0 <= acc < len(rec["ev"]) else None})
